@@ -123,6 +123,10 @@ C03(e, pre, post) ==
       If(e.resp.ok, "C03: a transaction whose signature does not cover its executed field values / chain / sender was accepted (" \o e.tx.auth \o ")")
       \cup If(~SameAccts(pre, post) \/ Observable(pre) # Observable(post),
               "C03: a transaction without a valid signature changed state (" \o e.tx.auth \o ")")
+      \* ... nor anything later transactions of the block depend on
+      \cup If(pre.vol.limiter # post.vol.limiter
+                \/ ("evmSynced" \in DOMAIN pre.vol /\ "evmSynced" \in DOMAIN post.vol /\ pre.vol.evmSynced # post.vol.evmSynced),
+              "C03: a transaction without a valid signature consumed the block's stake-change limits / left EVM bridge state behind (" \o e.tx.auth \o ")")
   ELSE {}
 
 ---------------------------------------------------------------------------
@@ -374,6 +378,12 @@ C13(e, pre, post, mon) ==
       \cup If(~e.resp.ok /\ Cum(post, a) # Cum(pre, a), "C13: a failed withdrawal changed the withdrawable reward")
   ELSE IF e.ev \in {"DeliverTx", "EndBlock", "Commit", "Restart", "CheckTx"} THEN
       If(\E b \in AllRewardNames(pre, post) : Cum(post, b) # Cum(pre, b), "C13: a withdrawable reward changed outside issuance and withdrawal")
+      \* what the block commits (and queries return) is the record block execution sees: issued minus withdrawn
+      \cup (IF e.ev = "Commit" /\ "committed" \in DOMAIN e THEN
+              If(\E b \in DOMAIN pre.rewards \cup DOMAIN e.committed.rewards :
+                    b \notin DOMAIN e.committed.rewards \/ b \notin DOMAIN pre.rewards \/ e.committed.rewards[b].cum # pre.rewards[b].cum,
+                 "C13: the withdrawable reward committed by the block is not everything issued minus everything withdrawn (a withdrawal or issuance was not persisted)")
+            ELSE {})
   ELSE {}
 
 ---------------------------------------------------------------------------
